@@ -600,6 +600,25 @@ def register(eng):
     def _identity(eng, a, callee):
         return a[0]
 
+    # ---- RefCell / Rc: single-threaded interior mutability and sharing; a borrow is a reference to the
+    # content (borrow-flag panics are outside the model: the repository never holds two borrows at once)
+    @model("RefCell::new", "Cell::new")
+    def _refcell_new(eng, a, callee):
+        return Agg("RefCell", None, 0, [a[0]])
+
+    @model("RefCell::borrow", "RefCell::borrow_mut", "RefCell::get_mut")
+    def _refcell_borrow(eng, a, callee):
+        cell = deref(a[0])
+        return Ref(lambda: cell.fields[0], lambda x: cell.fields.__setitem__(0, x), "refcell")
+
+    @model("RefCell::into_inner")
+    def _refcell_into(eng, a, callee):
+        return deref(a[0]).fields[0]
+
+    @model("Deref::deref@Ref", "Deref::deref@RefMut", "DerefMut::deref_mut@RefMut")
+    def _refcell_deref(eng, a, callee):
+        return a[0] if isinstance(a[0], Ref) else ref_to_value(a[0])
+
     # ---- Box
     @model("Box::new", "Box::pin")
     def _box_new(eng, a, callee):
